@@ -128,6 +128,8 @@ def pyInt (s : String) : Except Err Int :=
   if hasNonAscii s then .error (.unmodelled "int() of non-ASCII text") else
   let cs := s.toList
   if isAsciiIntBody (intBody cs) then
+    -- CPython refuses to convert more than `sys.get_int_max_str_digits()` (= 4300) digits
+    if ((intBody cs).filter Char.isDigit).length > 4300 then .error (.py .ValueError) else
     .ok (if cs.head? == some '-' then -(Int.ofNat (digitsVal (intBody cs))) else Int.ofNat (digitsVal (intBody cs)))
   else .error (.py .ValueError)
 /-- `_pop_as_int`: a `ValueError` of `int()` becomes `SqlParseError` -/
@@ -141,7 +143,7 @@ def isIntLiteral (s : String) : Bool := let b := intBody s.toList; !b.isEmpty &&
 /-- `ASTLiteralExpression.as_int` -/
 def asInt (s : String) : Except Err Int :=
   if hasNonAscii s then .error (.unmodelled "as_int of non-ASCII text") else
-  if isIntLiteral s then pyInt s else .error .parse
+  if isIntLiteral s then (match pyInt s with | .error (.py .ValueError) => .error .parse | r => r) else .error .parse
 def popAsInt (ts : List Tok) : R Int :=
   match ts with | [] => .error .parse | t :: r => (match asInt t.src with | .ok n => .ok (n, r) | .error e => .error e)
 
